@@ -3,7 +3,13 @@
 (*   "prec": few operands, every operator, parentheses and calls: all       *)
 (*           formulas up to MaxLen tokens (precedence and associativity)    *)
 (*   "lit" : every literal and reference, few operators, short formulas     *)
+(*   "ext" : the same for the literals and references of the second pool    *)
+(*           (exponent numerals, texts that look like generated code, cells *)
+(*           of sheets with special characters in their names) and the      *)
+(*           functions of one argument                                      *)
 (*   "sim" : everything, long formulas, sampled with -simulate              *)
+(*   "ref" : few operands, every function: long formulas with references    *)
+(*           and values nested in each other, sampled with -simulate        *)
 EXTENDS Formula
 
 \* text literals, as character codes (the harness doubles the quotes)
@@ -24,6 +30,10 @@ T13 == <<233, 128512, 26085>>    \* e-acute, an emoji beyond U+FFFF, a CJK chara
 T14 == <<35, 78, 47, 65>>                    \* #N/A
 T15 == <<35, 82, 69, 70, 33>>                \* #REF!
 T16 == <<35, 69, 77, 80, 84, 89, 33>>        \* #EMPTY!   looks like an error value, is none
+\* text that is spelled like a piece of the generated code is text: LEN("_C_") is 3
+T17 == <<95, 67, 95>>                        \* _C_      (the name of the cell read)
+T18 == <<120, 95, 82, 95>>                   \* x_R_     (the name of the range read, inside a word)
+T19 == <<95, 82, 69, 70, 95>>                \* _REF_    (the name of the reference)
 
 \* number literals by their characters; each denotes the number that the
 \* same characters denote as numeric text (ExcelValues!ParseNum)
@@ -35,13 +45,18 @@ Numerals == [N1 |-> <<48, 48, 55>>,          \* 007
              N6 |-> <<46, 53>>,              \* .5
              N7 |-> <<50, 46>>,              \* 2.
              N8 |-> <<49, 69, 48, 50>>,      \* 1E02
-             N9 |-> <<48, 48>>]              \* 00
+             N9 |-> <<48, 48>>,              \* 00
+             \* scientific notation with a signed exponent, whatever the mantissa
+             N10 |-> <<49, 50, 69, 43, 51>>,             \* 12E+3
+             N11 |-> <<48, 46, 53, 69, 43, 51>>,         \* 0.5E+3
+             N12 |-> <<50, 53, 69, 45, 49>>,             \* 25E-1
+             N13 |-> <<49, 48, 46, 53, 101, 43, 49>>]    \* 10.5e+1
 
-NamedLit == [x \in {"2", "3", "0.5", "1E2", "1E+2", "1.5E1", "1E-1", "TRUE", "FALSE",
+NamedLit == [x \in {"0", "1", "2", "3", "0.5", "1E2", "1E+2", "1.5E1", "1E-1", "TRUE", "FALSE",
                  "#N/A", "#DIV/0!", "#REF!",
                  "T1", "T2", "T3", "T4", "T5", "T6", "T7", "T8", "T9", "T10", "T11", "T12", "T13",
-                 "T14", "T15", "T16"} |->
-   CASE x = "2" -> IntV(2) [] x = "3" -> IntV(3) [] x = "0.5" -> Num(1, 2)
+                 "T14", "T15", "T16", "T17", "T18", "T19"} |->
+   CASE x = "0" -> IntV(0) [] x = "1" -> IntV(1) [] x = "2" -> IntV(2) [] x = "3" -> IntV(3) [] x = "0.5" -> Num(1, 2)
      [] x = "1E2" -> IntV(100) [] x = "1E+2" -> IntV(100) [] x = "1.5E1" -> IntV(15)
      [] x = "1E-1" -> Num(1, 10)
      [] x = "TRUE" -> TRUEV [] x = "FALSE" -> FALSEV
@@ -51,7 +66,8 @@ NamedLit == [x \in {"2", "3", "0.5", "1E2", "1E+2", "1.5E1", "1E-1", "TRUE", "FA
      [] x = "T7" -> Text(T7) [] x = "T8" -> Text(T8) [] x = "T9" -> Text(T9)
      [] x = "T10" -> Text(T10) [] x = "T11" -> Text(T11) [] x = "T12" -> Text(T12)
      [] x = "T13" -> Text(T13) [] x = "T14" -> Text(T14) [] x = "T15" -> Text(T15)
-     [] x = "T16" -> Text(T16)]
+     [] x = "T16" -> Text(T16) [] x = "T17" -> Text(T17) [] x = "T18" -> Text(T18)
+     [] x = "T19" -> Text(T19)]
 MCLit == NamedLit @@ [x \in DOMAIN Numerals |-> ParseNum(Numerals[x])]
 
 \* Known deviation (finding C02_r3_2): pycel represents an error value by
@@ -60,19 +76,52 @@ MCLit == NamedLit @@ [x \in DOMAIN Numerals |-> ParseNum(Numerals[x])]
 MCLitDev == [x \in {"T14", "T15", "T16"} |->
    CASE x = "T14" -> Err("#N/A") [] x = "T15" -> Err("#REF!") [] x = "T16" -> Blank]
 
-MCRefs == {"A1", "B1"}
-MCEnvs == << [A1 |-> IntV(-1),  B1 |-> Text(<<51>>)],       \* -1, "3"
-             [A1 |-> Num(1, 2), B1 |-> TRUEV],              \* 0.5, TRUE
-             [A1 |-> Blank,     B1 |-> Err("#N/A")] >>      \* blank, #N/A
+\* References.  A1 and B1 are cells of the sheet that holds the formula (S);
+\* Q1 .. Q5 are the cell A1 of five other sheets, written 'name'!A1 with the
+\* apostrophes of the name doubled.  The names hold the characters that mean
+\* something else elsewhere in a formula or in the generated code; W2 is W1
+\* without its special character and holds another value in every environment.
+SheetNames == [W1 |-> <<85, 83, 36>>,        \* US$     the marker of absolute references
+               W2 |-> <<85, 83>>,            \* US      (needs no quoting: US!A1)
+               W3 |-> <<105, 116, 39, 115>>, \* it's    written 'it''s'!A1
+               W4 |-> <<97, 34, 98>>,        \* a"b     the delimiter of text literals
+               W5 |-> <<95, 67, 95>>]        \* _C_     spelled like a piece of the generated code
+MCRefAt == [A1 |-> <<"S", 1, 1>>, B1 |-> <<"S", 1, 2>>,
+            Q1 |-> <<"W1", 1, 1>>, Q2 |-> <<"W2", 1, 1>>, Q3 |-> <<"W3", 1, 1>>,
+            Q4 |-> <<"W4", 1, 1>>, Q5 |-> <<"W5", 1, 1>>]
+MCRefs == DOMAIN MCRefAt
+MCEnvs == << [A1 |-> IntV(-1),  B1 |-> Text(<<51>>),        \* -1, "3"
+              Q1 |-> IntV(41), Q2 |-> IntV(1000), Q3 |-> IntV(7), Q4 |-> IntV(8),
+              Q5 |-> IntV(9)],
+             [A1 |-> Num(1, 2), B1 |-> TRUEV,               \* 0.5, TRUE
+              Q1 |-> Num(5, 2), Q2 |-> IntV(-4), Q3 |-> Text(<<113>>), Q4 |-> FALSEV,
+              Q5 |-> IntV(6)],
+             [A1 |-> Blank,     B1 |-> Err("#N/A"),         \* blank, #N/A
+              Q1 |-> IntV(3), Q2 |-> Blank, Q3 |-> Err("#DIV/0!"), Q4 |-> IntV(12),
+              Q5 |-> Text(<<122>>)] >>
 
 AllBinary == {"^", "*", "/", "+", "-", "&", "=", "<>", "<", "<=", ">", ">="}
 AllOperands == DOMAIN MCLit \cup MCRefs
+AllCalls == CallToks
+
+\* the second pool of literals and references
+ExtOperands == {"N10", "N11", "N12", "N13", "T17", "T18", "T19", "Q1", "Q2", "Q3", "Q4", "Q5"}
+LitOperands == AllOperands \ (ExtOperands \cup {"0", "1"})
+ExtPool == ExtOperands \cup {"2", "A1"}
+ExtCalls == {"ROW(", "COLUMN(", "LEN("}
 
 PrecOperands == {"2", "3", "1E2"}
 LitBinary == {"&", "=", "+", "^"}
 
+\* references and values nested in each other: cells of two sheets, the small
+\* numbers that keep OFFSET near them, texts that differ only by what a
+\* rewriting of the generated code would do to them
+RefOperands == {"A1", "B1", "Q1", "0", "1", "2", "N12", "T17", "T19"}
+RefBinary == {"+", "-", "=", "&"}
+
 \* the tables the harness needs to spell tokens and to bind references
-ASSUME PrintT(ToJson([tables |-> [lit |-> MCLit, num |-> Numerals, envs |-> MCEnvs]]))
+ASSUME PrintT(ToJson([tables |-> [lit |-> MCLit, num |-> Numerals, envs |-> MCEnvs,
+                                  refs |-> MCRefAt, sheets |-> SheetNames]]))
 
 \* fixed points of the reference semantics (documentation that TLC checks)
 V(t) == Value(t, MCEnvs[1])
@@ -100,6 +149,18 @@ ASSUME Examples ==
    /\ V(<<"T15", "+", "2">>) = VALUE                               \* "#REF!"+2
    /\ V(<<"T15", "=", "T15">>) = TRUEV
    /\ V(<<"T16">>) = Text(T16)
+   /\ V(<<"N10">>) = IntV(12000) /\ V(<<"N11">>) = IntV(500) /\ V(<<"N12">>) = Num(5, 2)
+   /\ V(<<"N13">>) = IntV(105) /\ V(<<"2", "*", "N12">>) = IntV(5)
+   /\ V(<<"Q1", "+", "1">>) = IntV(42) /\ V(<<"Q1", "+", "Q2">>) = IntV(1041)
+   /\ V(<<"ROW(", "B1", ")">>) = IntV(1) /\ V(<<"COLUMN(", "(", "B1", ")", ")">>) = IntV(2)
+   /\ V(<<"LEN(", "T17", ")">>) = IntV(3) /\ V(<<"LEN(", "T19", "&", "T18", ")">>) = IntV(9)
+   /\ V(<<"OFFSET(", "A1", ",", "0", ",", "1", ")">>) = Text(<<51>>)        \* reads B1
+   /\ V(<<"OFFSET(", "OFFSET(", "A1", ",", "1", ",", "1", ")", ",", "u-", "1", ",", "0", ")">>)
+        = Text(<<51>>)                                                    \* B2, then B1
+   /\ V(<<"COLUMN(", "OFFSET(", "A1", ",", "0", ",", "LEN(", "T17", ")", ")", ")">>) = IntV(4)
+   /\ V(<<"ROW(", "OFFSET(", "Q1", ",", "SUM(", "Q1", ",", "1", ")", ",", "0", ")", ")">>) = IntV(43)
+   /\ V(<<"ROW(", "OFFSET(", "A1", ",", "u-", "1", ",", "0", ")", ")">>) = Err("#REF!")
+   /\ V(<<"OFFSET(", "A1", ",", "#N/A", ",", "0", ")">>) = Err("#N/A")
    /\ Tree(<<"u-", "2", "%", "^", "3">>) =
         <<"bin", "^", <<"un", "%", <<"un", "u-", <<"lit", "2">>>>>>, <<"lit", "3">>>>
    /\ Unparse(<<"bin", "^", <<"bin", "^", <<"lit", "2">>, <<"lit", "3">>>>, <<"lit", "2">>>>)
